@@ -230,6 +230,28 @@ def oracle(run):
         run.case(("equal", a, b, str(v), str(w)), True, kind="equal-amount")
         if got != want:
             run.violate("C12:equal-amount-wrong", "%r vs %r: %s" % (x, y, got), {"a": [str(v), a], "b": [str(w), b]})
+    # units the table does not know, and unit against no unit (C12b: equal_amount_unknown_units, equal_amount_unit_vs_none): the same name in
+    # any letter case with the same value is the same amount; another name, or a unit against none, never is
+    unknown = ["handful", "sprig", "bunch", "stick", "slice", "prise", "b\u00fcschel", "dash", "glass", "handfuls"]
+    assert not any(u in NAME_KIND for u in unknown)
+    for _ in range(run.budget(400, 6000)):
+        a, b = rng.choice(unknown), rng.choice(unknown + [None])
+        if rng.random() < 0.5:
+            b = a
+        v = Fraction(rng.randint(1, 5000), rng.choice([1, 2, 3, 4, 10]))
+        delta = rng.choice([1, 1, 1, Fraction(1001, 1000), Fraction(999, 1000), 2])
+        ca = rng.choice([a, a.upper(), a.title()])
+        cb = None if b is None else rng.choice([b, b.upper(), b.title()])
+        if ca.lower() != a or (cb is not None and cb.lower() != b):
+            continue
+        x, y = Quantity(v, ca), Quantity(v * delta, cb)
+        if rng.random() < 0.5:
+            x, y = y, x
+        want = a == b and delta == 1
+        got = x.has_equal_value_to(y)
+        run.case(("equal-unknown", ca, cb, str(v), str(delta)), True, kind="equal-amount-unknown-units")
+        if got != want:
+            run.violate("C12:equal-amount-wrong", "%r vs %r: %s" % (x, y, got), {"a": [str(x.value), x.unit], "b": [str(y.value), y.unit]})
 
 
 def num_text(x):
